@@ -4,6 +4,7 @@
 pub mod conv;
 pub mod e2e;
 pub mod engine;
+pub mod fuzzapi;
 pub mod gen;
 pub mod net;
 pub mod props;
